@@ -32,7 +32,8 @@ FLOORS = {'cyclic_cases': 100, 'acyclic_cases': 100, 'failure_cases': 100,
           'deep_chain_cases': 6, 'derived_models': 50,
           'absolute_cycles': 60, 'linked_workbook_cases': 8,
           'long_cycles': 10, 'percent_in_cycle': 30,
-          'bare_reference_rings': 30, 'dormant_ring_cases': 8}
+          'bare_reference_rings': 30, 'dormant_ring_cases': 8,
+          'nested_sheet_name_decoys': 20}
 ANCHOR_FUNCS = {
     'xlcalculator/evaluator.py': ['Evaluator.evaluate',
                                   'EvaluatorContext.eval_cell'],
@@ -231,7 +232,10 @@ def run(ctx):
         for tail in range(0, 6):
             for closing in ('ref', 'range', 'name'):
                 for sheets in (['Sheet1'], ['Sheet1', 'Data'],
-                               ['Sheet1', 'My Sheet', 'Data']):
+                               ['Sheet1', 'My Sheet', 'Data'],
+                               # names that begin with punctuation / contain
+                               # one another
+                               ['(old) data', 'Net Sales', 'Sales']):
                     if not mine():
                         continue
                     if closing == 'name' and not (thorough or
@@ -419,6 +423,33 @@ def run(ctx):
                 ('rng', 'Data', 2, 1, 3, 2, F4_)]), ('lit', 0, '0')]))
         yield 'Summary!C1 = IF(TRUE,MAX(Data!B1:C2),0)', cells, \
             ('Summary', 3, 1)
+        # sheets whose names contain one another ('Sales' / 'Net Sales'): the
+        # same coordinates on the two sheets are different cells
+        for short, long_ in (('Sales', 'Net Sales'), ('Q1', 'FY24-Q1'),
+                             ('Costs', 'Total Costs'), ('Data', 'Data (2)'),
+                             ('a', 'a.a'), ('Plan', "Plan's"), ('X', 'X X')):
+            base = {(short, 2, 2): ('f', plus(R(1, 1, short), ONE)),
+                    (short, 1, 1): 10, ('Returns', 2, 2): 3}
+            cells = dict(base)
+            cells[(long_, 2, 2)] = ('f', ('bin', '-', R(2, 2, short),
+                                          R(2, 2, 'Returns')))
+            yield f'nested names: {long_}!B2 = {short}!B2-Returns!B2', cells, (long_, 2, 2)
+            cells = dict(base)
+            cells[(long_, 2, 2)] = ('f', ('call', 'IF', [
+                ('lit', True, 'TRUE'), R(2, 2, short), ('lit', 0, '0')]))
+            cells[(long_, 3, 3)] = ('f', plus(R(2, 2), ONE))
+            yield f'nested names: {long_}!C3 -> {long_}!B2 = IF(TRUE,{short}!B2,0)', cells, \
+                (long_, 3, 3)
+            cells = dict(base)
+            cells[(short, 2, 3)] = 4
+            cells[(long_, 2, 2)] = ('f', ('call', 'SUM', [
+                ('rng', short, 2, 2, 2, 3, F4_)]))
+            yield f'nested names: {long_}!B2 = SUM({short}!B2:B3)', cells, (long_, 2, 2)
+            # and the other way round: the short name needs the long one
+            cells = {(long_, 2, 2): ('f', plus(R(1, 1, long_), ONE)),
+                     (long_, 1, 1): 10,
+                     (short, 2, 2): ('f', plus(R(2, 2, long_), ONE))}
+            yield f'nested names: {short}!B2 = {long_}!B2+1', cells, (short, 2, 2)
         for depth in (6, 12, 22):
             # every cell refers to the next one TWICE and hands a blank on
             cells = {}
@@ -446,6 +477,8 @@ def run(ctx):
             ctx.fail(f'building {desc} raised {e!r}', {'graph': desc},
                      monitor='construction', group='build')
             continue
+        if desc.startswith('nested names'):
+            ctx.event('nested_sheet_name_decoys')
         judge_acyclic(desc, ('decoy', desc), wb, model, start, len(cells))
         judge_acyclic(desc + ' (same evaluator again)', ('decoy2', desc), wb,
                       model, start, len(cells), ev=C.last_evaluator)
